@@ -78,6 +78,8 @@ func EnvOf(c px.Context) *Env {
 		types.Parse("type Lat::STree = Variant[Integer[0, 9], Array[Lat::STree]]").(px.Type),
 	}
 	px.AddTypes(c, rec...)
+	// ONE Object type with a TYPE-valued type parameter (second tier: Lat::P[Integer] accepts Lat::P[T] iff Integer accepts T)
+	px.AddTypes(c, c.ParseType("type Lat::P = Object[{type_parameters => {p => Type}, attributes => {a => Integer, p => {type => Optional[Type], value => undef}}}]"))
 	c.Set(envKey, env)
 	return env
 }
